@@ -49,6 +49,8 @@ OBLIGATIONS = [
     "C15_named_parameters", "C15_from_dict_edges", "C15_from_dict_refuses_signature", "C15_from_dict_refuses_unknown",
     "C15_then_keeps_parents", "C15_from_dict_closures", "C15_from_dict_params_only", "C15_from_dict_accepts_iff",
     "C15_from_dict_error_meaning", "C15_key_set_check", "C15_from_dict_source", "C15_shipped_definitions",
+    # extension 5: the graph the State model of C01 / C02 works on starts from the signatures (Compose/FromDictState.v)
+    "C15_from_dict_is_build_of_state_definitions", "C15_shipped_definitions_state", "C15_shipped_first_history",
 ]
 
 HDR = "From Coq Require Import List.\nFrom Leaspy Require Import Dag.DagModel.\nImport ListNotations.\n"
